@@ -16,7 +16,8 @@ EVID = os.path.join(VERIF, "evidence")
 
 class Finding:
     def __init__(self, prop, rule, func, construct, message, loc="", detail=None, akey=None):
-        self.abstract = akey
+        # akey may be (akey, ekey): the second, coarser identity names only the effect (kind + file class)
+        self.abstract, self.effect = akey if isinstance(akey, tuple) else (akey, None)
         self.prop = prop
         self.rule = rule
         self.func = func if isinstance(func, str) else getattr(func, "qual", str(func))
@@ -34,12 +35,17 @@ class Finding:
         """rename-insensitive identity of the construct (what it does to which class of file), when the rule supplies one"""
         return f"{self.rule}|{self.func}|{self.abstract}" if self.abstract else None
 
+    @property
+    def ekey(self):
+        """helper-insensitive identity: the effect on the class of file, in this function (the move was wrapped in a helper)"""
+        return f"{self.rule}|{self.func}|{self.effect}" if self.effect else None
+
     def line(self):
         return f"{self.loc}  {self.rule}  {self.func}  `{self.construct[:110]}` — {self.message}"
 
     def to_json(self):
         return {"property": self.prop, "rule": self.rule, "function": self.func, "construct": self.construct,
-                "message": self.message, "loc": self.loc, "key": self.key, "akey": self.akey, "detail": self.detail}
+                "message": self.message, "loc": self.loc, "key": self.key, "akey": self.akey, "ekey": self.ekey, "detail": self.detail}
 
 
 class Rule:
@@ -96,10 +102,21 @@ def split_known(findings, known_entries):
         if f.key in by_key:
             old.append((f, by_key[f.key]))
             used.add(id(by_key[f.key]))
+    by_ekey = {k["ekey"]: k for k in known_entries if k.get("ekey")}
+    rest = []
     for f in findings:
         if f.key in by_key:
             continue
         k = by_akey.get(f.akey) if f.akey else None
+        if k is not None and id(k) not in used:
+            used.add(id(k))
+            old.append((f, k))
+        else:
+            rest.append(f)
+    for f in rest:
+        # the same effect on the same class of file in the same function, the known construct itself no longer there
+        # (the call was wrapped in a helper): still at most one finding per entry
+        k = by_ekey.get(f.ekey) if f.ekey else None
         if k is not None and id(k) not in used:
             used.add(id(k))
             old.append((f, k))
